@@ -42,4 +42,22 @@ def replay_config(inp):
             bad.append({"why": "a lookup modified the stored configuration"})
     except Exception as e:
         bad.append({"why": "lookup raised %r" % (e,)})
+    # several lookups on ONE parsed object, values with expansion tokens: each host gets its own expansion, and what one
+    # lookup expanded never shows up in another (the stored configuration is not written to)
+    text2 = """
+Host db web
+    IdentityFile keys/%h.pem
+    IdentityFile ~/.ssh/%r_%h
+
+Host *
+    User admin
+"""
+    for order in (("db", "web", "db"), ("web", "db"), ("db", "db")):
+        c2 = SSHConfig.from_text(text2)
+        for h in order:
+            fresh = SSHConfig.from_text(text2).lookup(h).get("identityfile")
+            got = c2.lookup(h).get("identityfile")
+            if got != fresh:
+                bad.append({"lookups_on_one_object": order, "host": h, "identityfile": got, "on_a_fresh_parse": fresh})
+                break
     return {"violates": bool(bad), "detail": bad[:4]}
